@@ -148,7 +148,7 @@ def lead_in_case(rng):
     nx = a0 + rng.randint(17, 20)
     layout = dict(ref_blocks=[(a0, a0 + 2, 0), (a0 + 6, a0 + 8, 1), (a0 + 12, a0 + 14, 0)], match_blocks=[],
                   trans_idx=[(a0 + 4, False), (a0 + 10, True)])
-    return fibre.make_case(rng, double=True, nx=nx, nt=rng.randint(1, 3), layout=layout)
+    return fibre.make_case(rng, double=True, nx=nx, nt=rng.randint(2, 3), layout=layout)
 
 
 def batch(ctx, n, tagged_every):
